@@ -154,11 +154,11 @@ Section CursorRun.
       - apply Forall_forall. intros e He. apply in_map_iff in He as (x & <- & _). reflexivity. }
     rewrite Hdel.
     destruct (fafter_world c pre (mkFP w lowest 0 ps)) as [m Hm]. cbn [fp_w] in Hm. rewrite Hm.
-    apply (file_run U c canon start U_id U_uniq U_up D_decl Hfilter Hstop Hcanon_U Hcanon_l Hcanon_start merged Hmode2 Hmerged_U
-             fuel (rev (hc ++ hf)) later hc).
+    apply (file_run U c canon start U_id U_uniq U_up D_decl Hfilter Hstop Hcanon_U Hcanon_l Hcanon_start merged Hmerged_U
+             fuel (rev (hc ++ hf)) JNil later hc).
     - apply wok_after; assumption.
     - apply tip_after. exact Htip.
-    - apply agree_after. exact Hagr.
+    - apply joins_after. apply agree_joins; [exact U_id | exact U_uniq | exact U_up | exact Hmode2 | exact Hagr].
     - rewrite rev_app_distr. apply sfold_pops.
     - exact Hl.
     - exact Hin.
